@@ -15,20 +15,21 @@ import (
 func init() { register("C14", propC14) }
 
 type connInfo struct {
-	fn        *ssa.Function // the function that runs the frame loop
-	setup     *ssa.Function // the function that reads the header and builds recorders/processor (== fn unless the loop was split off)
-	loopCall  *ssa.Call     // in setup: the call that leads to fn (nil when setup == fn)
-	reader    ssa.Value     // the bufio.Reader
-	hdrCall   *ssa.Call
-	hdrArg    int       // which argument of hdrCall is the reader (0 for headers.ReadHeaderInfo itself)
-	probe     *ssa.Call // first ReadFull in the loop
-	rest      *ssa.Call // second ReadFull
-	marker    string
-	markerIf  *ssa.If
-	resetCall *ssa.Call
-	process   *ssa.Call
-	buf       ssa.Value
-	err       error
+	fn                   *ssa.Function // the function that runs the frame loop
+	setup                *ssa.Function // the function that reads the header and builds recorders/processor (== fn unless the loop was split off)
+	loopCall             *ssa.Call     // in setup: the call that leads to fn (nil when setup == fn)
+	reader               ssa.Value     // the bufio.Reader
+	hdrCall              *ssa.Call
+	extraReads, extraPos string    // set when the frame loop reads the connection more than twice
+	hdrArg               int       // which argument of hdrCall is the reader (0 for headers.ReadHeaderInfo itself)
+	probe                *ssa.Call // first ReadFull in the loop
+	rest                 *ssa.Call // second ReadFull
+	marker               string
+	markerIf             *ssa.If
+	resetCall            *ssa.Call
+	process              *ssa.Call
+	buf                  ssa.Value
+	err                  error
 }
 
 // inSetup maps a value of the loop function to the value the set-up function passed for it (parameters of a split-off
@@ -161,6 +162,14 @@ func analyseHandleConn(w *World) *connInfo {
 			cur = cs[0]
 		}
 	}
+	if ci.hdrCall != nil && ci.process != nil && len(fulls) > 2 {
+		var ps []string
+		for _, c := range fulls {
+			ps = append(ps, w.InstrPos(c))
+		}
+		ci.extraReads = fmt.Sprintf("%d reads of the connection inside the frame loop (%s): besides the marker-sized probe and the remainder of the frame, a further read takes bytes off the stream - what it consumes is neither compared with the marker nor delivered as part of a frame, or shifts the frame boundary", len(fulls), strings.Join(ps, ", "))
+		ci.extraPos = w.InstrPos(fulls[len(fulls)-1])
+	}
 	if ci.hdrCall == nil || len(fulls) != 2 || ci.process == nil {
 		ci.err = fmt.Errorf("anchors not found: header read=%v, ReadFull calls=%d, Process=%v", ci.hdrCall != nil, len(fulls), ci.process != nil)
 		return ci
@@ -208,15 +217,20 @@ func unwrapIface(v ssa.Value) ssa.Value {
 }
 
 func propC14(w *World, r *Report) {
-	r.Explanation = "Decided clause: (M1) the 'clear' marker constant compared by the recorder is byte-identical to the one the camera daemon writes; (M2) the probe is io.ReadFull of exactly len(marker) bytes into the head of the frame buffer, the remainder is read by a second io.ReadFull from that same offset to the end, the buffer has FrameSize() bytes, and on the marker edge the loop resets the processor and continues without a second read or a frame; (M3) one bufio.Reader wraps the connection and is the only reader used for header and frames; all socket reads are ReadFull/ReadString (segmentation-proof by their contracts); (M4) ReadHeaderInfo returns the read error (truncation => error), leaves its loop only at the first blank line (on the edge where the trimmed line equals it), reads only through ReadString, and returns the YAML error on its non-nil edge; (M5) the key set written by leptond's camera-spec map equals the key set read by ReadHeaderInfo, for each key the writer's static type is decodable to the reader's asserted type, and the accessors return the asserted value exactly when the assertion succeeded; (M6) leptond announces lepton3.BytesPerFrame as FrameSize, writes whole raw frames of that length, and writes the marker only between frame loops. Rule: cross-binary constant/key-set agreement + guard/dominator analysis of the frame loop."
+	r.Explanation = "Decided clause: (M1) the 'clear' marker constant compared by the recorder is byte-identical to the one the camera daemon writes; (M2) the probe is io.ReadFull of exactly len(marker) bytes into the head of the frame buffer, the remainder is read by a second io.ReadFull from that same offset to the end, the buffer has FrameSize() bytes, and on the marker edge the loop resets the processor and continues without a second read or a frame; (M3) one bufio.Reader wraps the connection and is the only reader used for header and frames; all socket reads are ReadFull/ReadString (segmentation-proof by their contracts); (M4) ReadHeaderInfo returns the read error (truncation => error), leaves its loop only at the first blank line (on the edge where the trimmed line equals it), reads only through ReadString, and returns the YAML error on its non-nil edge; (M5) the key set written by leptond's camera-spec map equals the key set read by ReadHeaderInfo, for each key the writer's static type is decodable to the reader's asserted type, and the accessors return the asserted value exactly when the assertion succeeded; (M6) leptond announces lepton3.BytesPerFrame as FrameSize, writes whole raw frames of that length, and writes the marker only between frame loops. Rule: cross-binary constant/key-set agreement + guard/dominator analysis of the frame loop. Also (M2) each pass of the frame loop reads the connection exactly twice (probe, remainder)."
 	r.RuleText = "obligation per (rule, construct / header key)"
 	r.Assumptions = []string{"io.ReadFull / bufio.Reader.ReadString contracts (standard library): they return exactly the requested bytes / up to the delimiter regardless of read segmentation",
 		"YAML encoder/decoder round-trip of arbitrary strings is a dependency and not decided", "thermal-writer reads the same socket but ignores the marker (sibling cross-check note, not part of the statement)"}
 	ci := analyseHandleConn(w)
 	if ci.err != nil {
+		if ci.extraReads != "" {
+			r.Fail("M2", "each pass of the frame loop takes bytes off the connection with exactly two reads: the marker-sized probe and the remainder of the frame", ci.extraPos, ci.extraReads, "")
+			return
+		}
 		r.Unknown("roles", "recorder connection handler", "-", ci.err.Error())
 		return
 	}
+	r.Pass("M2", "each pass of the frame loop takes bytes off the connection with exactly two reads: the marker-sized probe and the remainder of the frame", w.InstrPos(ci.probe), "probe + remainder")
 	e := newTermEnv(w)
 	// ---- M3: all frame reads are io.ReadFull (exact-length, segmentation proof)
 	for i, c := range []*ssa.Call{ci.probe, ci.rest} {
@@ -823,7 +837,7 @@ func checkReadHeaderInfo(w *World, r *Report, rh *ssa.Function) {
 		if strings.HasPrefix(ct, "ne(#1(bufio.Reader.ReadString(") {
 			if ret, ok := b.Succs[0].Instrs[len(b.Succs[0].Instrs)-1].(*ssa.Return); ok && len(ret.Results) == 2 {
 				t0, t1 := e.termOf(ret.Results[0]).String(), e.termOf(ret.Results[1]).String()
-				okErr = t0 == "nil" && strings.HasPrefix(t1, "#1(bufio.Reader.ReadString(")
+				okErr = t0 == "nil" && (strings.HasPrefix(t1, "#1(bufio.Reader.ReadString(") || strings.HasPrefix(t1, "fmt.Errorf(") && strings.Contains(t1, "#1(bufio.Reader.ReadString("))
 			}
 		}
 	}
@@ -1352,6 +1366,30 @@ func callErrorReturned(c *ssa.Call) bool {
 			for _, rv := range ret.Results {
 				if rv == ev {
 					return true
+				}
+				// ... or wrapped with context: a fresh error built from it on that edge (the callers of these rules only
+				// need the failure to be reported, not the identity of the error)
+				if c2, isCall := rv.(*ssa.Call); isCall && c2.Block() == failing && calleeName(c2) == "fmt.Errorf" {
+					for _, a := range c2.Call.Args {
+						if sl, isSl := a.(*ssa.Slice); isSl {
+							if al, isAl := sl.X.(*ssa.Alloc); isAl && al.Referrers() != nil {
+								for _, rf := range *al.Referrers() {
+									if ia, isIA := rf.(*ssa.IndexAddr); isIA && ia.Referrers() != nil {
+										for _, st := range *ia.Referrers() {
+											if s2, isSt := st.(*ssa.Store); isSt {
+												if mi, isMI := s2.Val.(*ssa.MakeInterface); isMI && mi.X == ev {
+													return true
+												}
+												if ci, isCI := s2.Val.(*ssa.ChangeInterface); isCI && ci.X == ev {
+													return true
+												}
+											}
+										}
+									}
+								}
+							}
+						}
+					}
 				}
 			}
 		}
